@@ -5,6 +5,8 @@ import Gvlean.Spec.Uuid
 import Gvlean.Spec.Url
 import Gvlean.Spec.Email
 import Gvlean.Spec.Ascii
+import Driver.Sexp
+import Gvlean.Spec.Report
 
 open Go Driver
 
@@ -23,6 +25,13 @@ def stepSpec (line : String) : String :=
       | "alpha" => showBool (Spec.alphaSpecB b)
       | "numeric" => showBool (Spec.numericSpecB b)
       | _ => "bad-op"
+  | ["spec", d, v] =>
+    match (readSx d).bind sxDecl, (readSx v).bind sxVal with
+    | some decl, some val =>
+      match Spec.violated decl val with
+      | some es => Spec.renderReport es
+      | none => "undef"
+    | _, _ => "bad-op"
   | _ => "bad-op"
 
 def main : IO Unit := do
